@@ -126,6 +126,40 @@ PristinePrefix(L, n, out) == IF n < TrueLen(L) THEN out = "more" ELSE out = "fra
 \* memory is not committed for bytes that have not arrived
 AllocAfterArrival(L, v, n, alloc) == (~LenValid(L, v) \/ n < Announced(L, v)) => alloc <= AllocBound(n)
 
+(* ------------------------------------------------------------------ directed strings: absurd lengths of INNER structures
+   (the frame itself is complete; a length inside its payload announces bytes that are not there).  `at` is a hex
+   pattern of the pristine frame, `patch` replaces it.  Contract: the generic one (StrOK below). *)
+DS(layout, name, at, patch) == [layout |-> layout, codec |-> Layouts[layout].codec, name |-> name, at |-> at, patch |-> patch]
+Directed == {
+  DS("bolt_req",    "key-length-minus-one",      "0000000773657276", "ffffffff73657276"),
+  DS("bolt_req",    "key-length-2g",             "0000000773657276", "7fffffff73657276"),
+  DS("bolt_req",    "value-length-minus-two",    "00000003737663",   "fffffffe737663"),
+  DS("bolt_resp",   "key-length-2g",             "0000000773657276", "7fffffff73657276"),
+  DS("boltv2_req",  "key-length-minus-one",      "0000000773657276", "ffffffff73657276"),
+  DS("boltv2_req",  "key-length-2g",             "0000000773657276", "7fffffff73657276"),
+  DS("boltv2_resp", "value-length-minus-two",    "00000003737663",   "fffffffe737663"),
+  DS("dubbo_req",   "hessian-string-64k",        "05322e302e32",     "53ffff2e302e"),
+  DS("dubbo_req",   "hessian-string-chunked",    "05322e302e32",     "52ffff2e302e"),
+  DS("dubbo_req",   "hessian-second-string-64k", "087376632e74",     "53ffff632e74"),
+  DS("thrift_req",  "service-length-2g",         "0100000008737663", "017fffffff737663"),
+  DS("thrift_req",  "service-length-negative",   "0100000008737663", "01ffffffff737663"),
+  DS("thrift_req",  "method-length-2g",          "0000000463616c6c", "7fffffff63616c6c"),
+  DS("thrift_resp", "method-length-2g",          "0000000463616c6c", "7fffffff63616c6c"),
+  DS("thrift_resp", "service-length-16m",        "0100000008737663", "0101000000737663"),
+  DS("tars_req",    "sbuffer-length-as-int32",   "7d00000c",         "7d00020c"),
+  DS("tars_req",    "sbuffer-length-as-int16",   "7d00000c",         "7d00017f"),
+  DS("tars_resp",   "sbuffer-length-as-int32",   "6d00000c",         "6d00020c"),
+  DS("tars_resp",   "sbuffer-length-negative",   "6d00000c",         "6d0000ff"),
+  DS("tars_req",    "servant-string4-2g",        "56087376632e",     "577fffffff2e")
+}
+
+(* generic contract for a byte string of n bytes given to a decoder *)
+StrOK_NoPanic(o)           == o \notin {"panic", "loop"}
+StrOK_Consumed(o, c, nn)   == c <= nn /\ (o = "more" => c = 0)
+StrOK_Alloc(o, a, nn)      == a <= AllocBound(nn)
+
+ASSUME Emit => \A d \in Directed : PrintT(<<"CASE", ToJson(d)>>)
+
 (* ------------------------------------------------------------------ the decoder, in the shape of the code *)
 VARIABLES lay, fld, mut, n,        \* the case
           pc, out, consumed, alloc, maxread
